@@ -14,8 +14,9 @@ CLAIMED = {
         text="Machine-checked Lean 4 theorems over an executable model of the block splitter, for every row "
              "sequence of any length: classifier = declarative marker rule, rows with non-blank first cell delivered "
              "exactly once in order, delivered rows a sublist of the input, origin row = index of first row "
-             "(contiguous slice) for non-BLANK blocks, METADATA only at row 0, prefix stability, block structure a "
-             "function of first-cell kinds only. Model tied to code every run: regex text pinned by a theorem over the "
+             "(contiguous slice) for non-BLANK blocks, the origin row of a BLANK block = the row that ended the previous block, "
+             "METADATA only at row 0, prefix stability, block structure a function of first-cell kinds only, block shape "
+             "(the type of a block is the kind of its first row; every further row is an ordinary row). Model tied to code every run: regex text pinned by a theorem over the "
              "regenerated constant, and differential execution of parse_blocks_stable vs the compiled model.",
         note=TB + "Python's re engine and str.isspace are modelled (hand model of the regex, whitespace table compared "
              "with CPython on all code points each run).",
